@@ -460,6 +460,8 @@ class EvolvableMultiInput(EvolvableModule):
         """
         self.activation = activation
         if output:
+            # Keep the constructor description (init_dict) in line with the live layer
+            self.output_activation = activation
             self.output = get_activation(activation)
 
     @mutation(MutationType.NODE)
